@@ -2,6 +2,7 @@
 
 PROPS = {
     'C01': {
+        'kani': True,
         'harnesses': ['c01::h_tokeniser', 'c01::h_cmp', 'c01::h_glue', 'c01::h_token_strings'],
         'covers': {'c01::h_tokeniser': ['tokenised-something'], 'c01::h_cmp': ['true-verdict', 'false-verdict'],
                    'c01::h_token_strings': ['long-version', 'has-revision']},
@@ -11,6 +12,7 @@ PROPS = {
         'covers': {'c02::h_compile': ['accepted', 'rejected'], 'c02::h_match': ['match', 'two-bounds']},
     },
     'C03': {
+        'kani': True,
         'harnesses': ['c03::h_laws2', 'c03::h_trans', 'c03::h_api_laws', 'c03::h_two_bounds'],
         'covers': {'c03::h_laws2': ['lt', 'gt', 'eq'], 'c03::h_trans': ['chain'], 'c03::h_two_bounds': ['both-hold']},
     },
